@@ -203,7 +203,7 @@ func c09File(text []byte, v2 bool) (string, int) {
 }
 
 func runC09(r *report.Run) {
-	r.SetRule("(a) line level: every line of generated data files (all 17 line types incl. '!' range points, both separators, default/explicit fields, octal escapes, mixed case, wildcard owners, locations, IPv4/IPv6) plus hand-shaped lines (escaped separators/backslash/space/NUL in names, wildcard SVCB/HTTPS, explicit zero fields, subnet and range-point forms) goes DecodeLn -> MarshalText -> DecodeLn; the compiled keys/values must be equal and the second MarshalText equal to the first, with CDB-style and RocksDB-style codecs and v1/v2 keys. (b) file level: dump(compile(F)) must equal dump(compile(Preprocess(F))) for v1 and v2 keys with one fixed serial. non-trivial = accepted line that is not byte-identical to its normal form; distinct by line text")
+	r.SetRule("(a) line level: every line of generated data files (all 17 line types incl. '!' range points, both separators, default/explicit fields, octal escapes, mixed case, wildcard owners, locations, IPv4/IPv6) plus hand-shaped lines (escaped separators/backslash/space/NUL in names, wildcard SVCB/HTTPS, explicit zero fields, subnet and range-point forms) goes DecodeLn -> MarshalText -> DecodeLn; the compiled keys/values must be equal and the second MarshalText equal to the first, with CDB-style and RocksDB-style codecs and v1/v2 keys. (b) file level: dump(compile(F)) must equal dump(compile(Preprocess(F))) for v1 and v2 keys with one fixed serial, for generated worlds, for files whose maps hold 49-400 disjoint subnets and for files with hostile subnet sets (nested, adjacent, defaults, edges of the address space and of the IPv4-mapped block), whose '!' lines also go through (a). non-trivial = accepted line that is not byte-identical to its normal form; distinct by line text")
 	r.Assume("lines the codec rejects are not part of the property (counted separately)")
 	nworlds := r.Pick(150, 6000)
 	seen := map[string]bool{}
@@ -319,6 +319,33 @@ func runC09(r *report.Run) {
 			if msg != "" {
 				r.Violation("", fmt.Sprintf("file with %d subnet lines, v2=%v: %s", len(uniq)-3, v2, msg), c09Case{File: string(text), V2: v2})
 			}
+		}
+	}
+	// files with hostile subnet sets (nested, adjacent, same network at several lengths, defaults, the edges of the
+	// address space and of the IPv4-mapped block): their range points, as text and compiled from text
+	for i := 0; i < r.Pick(60, 1200); i++ {
+		hrng := rand.New(rand.NewSource(r.Seed*7919 + int64(i)))
+		f := c03GenMapFile(hrng, false, i%5 == 4)
+		text := []byte(f.Text(hrng))
+		if pre, err := c09Preprocess(text); err == nil {
+			for _, l := range strings.Split(string(pre), "\n") {
+				if strings.HasPrefix(l, "!") {
+					check(l)
+					r.Count("range_point_lines_of_hostile_subnet_sets", 1)
+				}
+			}
+		}
+		for _, v2 := range []bool{false, true} {
+			msg, keys := c09File(text, v2)
+			r.Eval(1)
+			r.Count("files_with_hostile_subnet_sets", 1)
+			r.Count("file_keys_compared", int64(keys))
+			if msg != "" {
+				r.Violation("", fmt.Sprintf("hostile subnet sets, v2=%v: %s", v2, msg), c09Case{File: string(text), V2: v2})
+			}
+		}
+		if r.Violations() >= 15 {
+			break
 		}
 	}
 	for l := range seen {
